@@ -164,13 +164,19 @@ def mask_ack(ack):
     return '\n'.join(out)
 
 
-def observe(text, params=None, loop_id=None, map_path=None):
+def observe(text, params=None, loop_id=None, map_path=None, settings=None):
     """everything C18 compares, as one JSON-able dict (timestamps and generated control numbers masked)"""
     import pyx12.error_handler
     import pyx12.params
     import pyx12.x12context
     import pyx12.x12n_document
     from . import pipeline
+    import pyx12.params as _pp
+    if params is None:
+        params = _pp.params()
+    if settings:
+        for k, v in settings.items():
+            params.set(k, v)      # the caller's own choice for this run (charset, exclude_external_codes)
     r = pipeline.validate(text, want_997=True, want_html=True, want_xml=True, param=params, map_path=map_path)
     html = re.sub(r'Analysis Date: [0-9/: ]+', 'Analysis Date: #', r.html or '')
     out = {'verdict': r.verdict, 'exc': list(r.exc[:3]) if r.exc else None,
@@ -180,7 +186,7 @@ def observe(text, params=None, loop_id=None, map_path=None):
         out['html'] = out['xml'] = out['ack'] = 'n/a (exception escaped)'
     ctx = []
     try:
-        p = params if params is not None else pyx12.params.params()
+        p = params
         rd = pyx12.x12context.X12ContextReader(p, pyx12.error_handler.errh_null(), io.StringIO(text))
         for node in rd.iter_segments(loop_id):
             if node.id == loop_id or getattr(node, 'type', None) == 'loop' or hasattr(node, 'iterate_segments') and node.__class__.__name__ == 'X12LoopDataNode':
@@ -193,15 +199,15 @@ def observe(text, params=None, loop_id=None, map_path=None):
     return out
 
 
-def fresh(text, loop_id):
+def fresh(text, loop_id, settings=None):
     """the same observation in a fresh interpreter"""
     env = dict(os.environ)
     p = subprocess.run(['/venv/bin/python', '-W', 'ignore', '-c',
                         'import sys, json; sys.path.insert(0, %r); sys.path.insert(0, %r)\n'
                         'from harness import c18\n'
                         'd = json.load(sys.stdin)\n'
-                        'print(json.dumps(c18.observe(d["text"], None, d["loop_id"])))' % (common.VERIF, common.REPO)],
-                       input=json.dumps({'text': text, 'loop_id': loop_id}), stdout=subprocess.PIPE, stderr=subprocess.PIPE, text=True, env=env, timeout=600)
+                        'print(json.dumps(c18.observe(d["text"], None, d["loop_id"], None, d["settings"])))' % (common.VERIF, common.REPO)],
+                       input=json.dumps({'text': text, 'loop_id': loop_id, 'settings': settings}), stdout=subprocess.PIPE, stderr=subprocess.PIPE, text=True, env=env, timeout=600)
     if p.returncode != 0:
         raise common.Infra('fresh interpreter failed: ' + p.stderr[-1500:])
     return json.loads(p.stdout.strip().split('\n')[-1])
@@ -242,6 +248,9 @@ def run(tier):
             text = g.doc()
             if rnd.random() < 0.5:
                 text, _ = c12.inject(text, rnd)
+            if rnd.random() < 0.35:
+                # a state code that is not in the external code set: the outcome then depends on exclude_external_codes
+                text = re.sub(r'^(N4\*[^*~]*\*)[A-Z]{2}', r'\1ZZ', text, count=1, flags=re.M)
             lid = rnd.choice((None, 'ST_LOOP', '2000A', '2000', '2300', 'ISA_LOOP'))
             docs.append((m['map_file'], text, lid))
         params = pyx12.params.params()
@@ -250,24 +259,29 @@ def run(tier):
         res.distinct(tuple((d[0], hash(d[1]), d[2]) for d in docs), nontrivial=(len(maps) > 1 or len(set(docs)) < len(docs)))
         psnap = copy.deepcopy(params.params)
         mapdir = os.path.join(common.REPO, 'pyx12', 'map')
+        used_settings = []
         for i, (mf, text, lid) in enumerate(docs):
             # every third document is validated with the map directory named explicitly (same files as the packaged ones)
-            got = observe(text, params, lid, map_path=(mapdir if (h + i) % 3 == 0 else None))
+            settings = {'charset': 'B' if (h + 2 * i) % 4 == 1 else 'E',
+                        'exclude_external_codes': 'states' if (h + i) % 5 == 2 else None}
+            psnap.update(settings)
+            used_settings.append(settings)
+            got = observe(text, params, lid, map_path=(mapdir if (h + i) % 3 == 0 else None), settings=settings)
             if params.params != psnap:
                 res.violation('pred:params-object-mutated', 'the caller\'s params object was changed by a run: %r -> %r' % (
                     {k: v for k, v in psnap.items() if params.params.get(k) != v}, {k: v for k, v in params.params.items() if psnap.get(k) != v}),
                     {'history': [{'map': d[0], 'loop_id': d[2], 'document': d[1]} for d in docs[:i + 1]],
                      'call': 'x12n_document(params, ..., map_path=<explicit map directory>) then inspect params.params'})
                 params.params = copy.deepcopy(psnap)
-            want = fresh(text, lid)
+            want = fresh(text, lid, settings)
             ndocs += 1
             res.count()
             if got != want:
                 diff = [k for k in want if got.get(k) != want.get(k)]
                 res.violation('pred:history-dependent:%s' % '-'.join(diff),
                               'document %d of a history (%s) gives a different %s than in a fresh process' % (i, mf, diff),
-                              {'history': [{'map': d[0], 'loop_id': d[2], 'document': d[1]} for d in docs[:i + 1]],
-                               'call': 'harness.c18.observe on each document in order, reusing one params object; compare the last with a fresh interpreter',
+                              {'history': [{'map': d[0], 'loop_id': d[2], 'document': d[1], 'settings': used_settings[j]} for j, d in enumerate(docs[:i + 1])],
+                               'call': 'harness.c18.observe on each document in order with its settings, reusing one params object; compare the last with a fresh interpreter',
                                'observed': {k: repr(got.get(k))[:600] for k in diff}, 'required': {k: repr(want.get(k))[:600] for k in diff}})
         if len(res.cov['samples']) < 3:
             res.sample({'history': [(d[0], d[2], len(d[1])) for d in docs]})
@@ -277,10 +291,12 @@ def run(tier):
         if len(v) != 0:
             res.violation('pred:default-cell-mutated:%s' % k, 'mutable default %s now holds %r' % (k, v), {'cell': k, 'value': repr(v)})
     after = module_containers(mods)
-    for k in before:
-        if after.get(k) != before[k] and not k.endswith('logger'):
-            res.violation('pred:module-global-changed:%s' % k, 'module-level container %s changed during the histories' % k,
-                          {'before': before[k][:500], 'after': (after.get(k) or '')[:500]})
+    for k in sorted(set(before) | set(after)):
+        if after.get(k) != before.get(k, '<absent>') and not k.endswith('logger'):
+            # a premise of the model ("these are all the cross-run cells") no longer checks; whether the property fails is
+            # decided by the histories above (different settings for the same map in one process)
+            res.broke('correspondence:Globals.module-containers', 'module-level container %s changed during the histories: %s -> %s' % (
+                k, before.get(k, '<absent>')[:120], (after.get(k) or '')[:120]))
     res.notes['documents'] = ndocs
     res.notes['histories'] = nhist
     res.notes['default_cells'] = sorted(cells)
@@ -297,7 +313,7 @@ def replay(d):
     params = pyx12.params.params()
     got = None
     for h in hist:
-        got = observe(h['document'], params, h['loop_id'])
-    want = fresh(hist[-1]['document'], hist[-1]['loop_id'])
+        got = observe(h['document'], params, h['loop_id'], None, h.get('settings'))
+    want = fresh(hist[-1]['document'], hist[-1]['loop_id'], hist[-1].get('settings'))
     print('same' if got == want else 'different')
     return 0 if got == want else 1
